@@ -2,6 +2,7 @@
   The public table operations against the ideal sorted map of (key, value) pairs.
 -/
 import QlibcModel.Tree.Table
+import QlibcModel.Tree.Zipper
 import QlibcModel.Tree.PutBal
 import QlibcModel.Tree.PutOrd
 import QlibcModel.Tree.Find
@@ -12,7 +13,6 @@ open Qlibc T
 variable {K V : Type}
 
 /-- what a table holds, as the ideal sorted map sees it -/
-def kv (e : Entry K V) : K × V := (e.key, e.val)
 def Tbl.abs (s : Tbl K V) : List (K × V) := (inorder s.root).map kv
 
 /-- ideal `put`: an empty value (`qmemdup` of size 0 is NULL) keeps the old value of an
